@@ -27,7 +27,7 @@ func init() {
 			"(T3) for a token that is not a start element, and for a start element of any other name, every path goes back to the head of the loop that reads the next token without decoding or skipping anything (Decoder.Skip is called on no path), and every DecodeElement receives the start element bound in the same iteration on the decoder the token came from; " +
 			"(T4) Action.UnmarshalXML stores the Value of the start element's `type` attribute (and of no other attribute) into Action.Type and, for each of old, new, node, way, relation, decodes the child into a fresh object that the documented field of the action holds at the end of the iteration; Date parses the text it decoded with the layout it formats with; " +
 			"(T5) between DecodeElement and the return of Scan nothing is stored through the decoded object and it is handed to no code the analysis does not enter: the scanner yields what encoding/xml decoded, as a whole-document decode does. " +
-			"(T6) every DecodeElement reached inside a loop (the scanner, every UnmarshalXML) fills a value created in that loop iteration - DecodeElement keeps what the element does not carry, so a scratch value declared before the loop, partially reset, or retained makes an element inherit its predecessor's fields; what a custom decoder leaves in its receiver is not built on a package-level variable; a type with xml-tagged fields and its own UnmarshalXML stores each attribute named by a tag into the tagged field (and no other) and holds the decoded child of each element tag in the tagged field. " +
+			"(T6) every DecodeElement reached inside a loop (the scanner, every UnmarshalXML) fills a value created in that loop iteration - DecodeElement keeps what the element does not carry, so a scratch value declared before the loop, partially reset, or retained makes an element inherit its predecessor's fields; what a custom decoder leaves in its receiver is not built on a package-level variable; a type with xml-tagged fields and its own UnmarshalXML stores each attribute named by a tag into the tagged field (and no other) and holds the decoded child of each element tag in the tagged field; a numeric or bool field filled from an attribute holds the result of strconv applied to the whole (trimmed) attribute text with base 10 and the field's bit size - a value computed by the decoder's own arithmetic is undecided, another base or bit size a violation. " +
 			"T2-T6 are decided on the behaviour observed by an abstract interpreter that explores Scan / UnmarshalXML, with everything they call, once per element name (and attribute name). " +
 			"NOT decided: everything encoding/xml itself does (attribute order, whitespace, comments, entities, self-closing tags, unknown names are its documented behaviour), equality of decoded values, names outside the table (library extensions are covered by C04's symmetry rules only), and behaviour that only shows from the second iteration of a loop on.",
 		Assumptions: []string{"go/types (x/tools v0.29.0)", "documented naming rules of encoding/xml (struct tags, XMLName, slices append per occurrence, a nil pointer field is allocated once and reused, DecodeElement fills the pointee of a non-nil pointer and keeps the pointer)", "the path-enumerating abstract interpreter of rules/c03_eval.go (one iteration per loop, calls outside the repository opaque, function literals, method values, deferred calls, pointers to fields and never-reassigned unexported package-level tables are followed; goroutines, goto, generic functions and calls whose target is not known on the path make the exploration undecided)", "tables/osmxml.json transcribes the OSM documentation correctly"},
